@@ -6,8 +6,19 @@
      `opt_data = opt_data || {}` line, the statements of the body translated by Props/C04d `toBody` in a fresh frame,
      the counter of generated names running on through the file); `walkTop_renders`: the generator model writes
      exactly `renderFunc` of each.
-  2. Calls through the TABLE of these functions (Spec/JsStmt `callFn`) instead of a callee oracle.
-  3. The registry theorems: `gen_correct_registry_partial` / `gen_complete_registry_partial`.
+  2. Calls through the TABLE of these functions (Spec/JsStmt `callFn`) instead of a callee oracle:
+     `calls_table_correct` — for a table that holds the translated bodies of a registry's templates (`TableOk`;
+     `tableOk_of_file`: the functions of a file are one) the hypotheses `CallRel` / `CallRelE` of the statement theorems
+     hold against the reference `refCall`, by induction on the call depth.
+  3. The registry theorems.  `gen_correct_registry_partial` / `gen_correct_file_partial`: what a generated function
+     returns on the JSON image of the data is what Spec/Eval.render renders (hypotheses, all named: `TableOk`, no print
+     directives — `plainBlock` of every template —, `EscapeHtmlIs`); `gen_correct_registry_cmds_partial`: the same for
+     commands inside a template.  `gen_complete_registry_partial`: the converse against the reference semantics
+     (`refCall`) — the function returns the text or leaves the subset, it does not throw;
+     `gen_complete_registry_spec_partial`: against Spec/Eval.render with the one missing lemma as the named hypothesis
+     `hthrow`.
+  The function header is generator output here (`renderFunc`), and its meaning is the trusted `callFn` of Spec/JsStmt
+  (tied to otto by the harness property C04sem, which runs the entry function THROUGH the table).
 -/
 import SoyVerif.Props.C04e
 
@@ -15,6 +26,7 @@ namespace SoyVerif.Props.C04f
 open SoyVerif SoyVerif.Model SoyVerif.Model.JsGen SoyVerif.Spec.JsSemRef SoyVerif.Spec.JsStmt
 open SoyVerif.Props.C04c (toAst render RunsSc toJsV EnvRel)
 open SoyVerif.Props.C04d SoyVerif.Props.C04e
+open SoyVerif.Spec.Eval (Val Out)
 
 /-! ## 1. the function level of the generator -/
 
@@ -230,6 +242,287 @@ theorem visitSoyFile_renders (f : SoyFile) (r : List JsFunc × Scope) (h : toFil
 
 end
 
+/-! ## 2. / 3. calls through the table, and the registry
+
+  `callFn F table fuel d` (Spec/JsStmt) is the generated program: the functions of the table calling one another.
+  `TableOk`: under each name the table holds the translation of the body of the registry's template of that name,
+  made in some scope without bindings (any counter: `toFile` makes them with the counter running through the file).
+  `calls_table_correct`: the table's calls satisfy the hypotheses `CallRel` / `CallRelE` of the statement theorems
+  against the reference `refCall` (induction on the call depth); `refCall_le`: on templates without print
+  directives, and soy.$$escapeHtml read as `htmlEscape ∘ ToString`, `refCall` renders only what Spec/Eval.renderTmpl
+  renders.  Together: the registry theorems, in which no callee oracle is left. -/
+
+section
+variable (F : Bytes → List Expr → JVal → JOut) (reg : Registry.Reg) (table : List JsFunc) (fuel : Nat)
+
+/-- NAMED HYPOTHESIS: the table holds, under each name, the translated body of the registry's template of that name -/
+def TableOk : Prop :=
+  ∀ (name : Bytes) (f : JsFunc), table.find? (fun f => f.name == name) = some f →
+    ∃ t sc rb, Registry.lookup reg name = some t ∧ ScOk sc ∧ (∀ k, sc.lookup k = none) ∧ GoodBuf sc sOutputVar ∧
+      toBody (tmplAe t) sOutputVar t.body sc = some rb ∧ f.body = rb.1
+
+theorem defaultData_obj (x : Bool) (kvs : List (Bytes × JVal)) : defaultData x (.obj kvs) = .obj kvs := by
+  simp [defaultData, toBoolean]
+
+theorem toBody_cmds {ae : Autoescape} {buf : Bytes} {b : Block} {sc : Scope} {rb : JsStmts × Scope}
+    (h : toBody ae buf b sc = some rb) : toCmds ae buf (blockCmds b) sc = some rb := by
+  cases b with
+  | mk p cmds => unfold toBody at h; exact h
+
+/-- the functions of the table and the reference's call agree at every depth -/
+theorem calls_table_correct (htab : TableOk reg table) : ∀ (d : Nat) (e : Spec.Eval.Binds),
+    CallRel (callFn F table fuel d) ⟨reg, e, refCall F reg d⟩ ∧ CallRelE (callFn F table fuel d) ⟨reg, e, refCall F reg d⟩
+  | 0, e => ⟨fun _ _ _ _ _ h => by simp [callFn] at h, fun _ _ _ _ h => by simp [callFn] at h⟩
+  | d + 1, e => by
+    have ih := calls_table_correct htab d
+    refine ⟨?_, ?_⟩
+    · intro name ce jd r hj hg
+      simp only [callFn] at hg
+      cases hf : table.find? (fun f => f.name == name) with
+      | none => simp [hf] at hg
+      | some f =>
+        obtain ⟨t, sc, rb, hlk, hs, hsc, hgb, hrb, hfb⟩ := htab name f hf
+        simp only [hf, defaultData_obj, hfb] at hg
+        have hrel : EnvRel ce.entry sc { vars := ce.entry, loops := [], ij := ce.ij, globals := ce.globals }
+            ⟨jd, none, [(sOutputVar, .str [])]⟩ :=
+          C04c.envRel_params sc { vars := ce.entry, loops := [], ij := ce.ij, globals := ce.globals } _ hsc hj
+        split at hg
+        · rename_i jenv' hx
+          obtain ⟨text, ht, hb, _⟩ := cmds_ok F (callFn F table fuel d) ⟨reg, ce.entry, refCall F reg d⟩ (tmplAe t) (ih ce.entry).1
+            (blockCmds t.body) sOutputVar fuel sc rb _ _ jenv' [] (toBody_cmds hrb) hs hgb hrel (by simp [BufIs]) hx
+          unfold BufIs at hb
+          rw [hb] at hg
+          simp only [List.nil_append, JOut.val.injEq] at hg
+          exact ⟨t, text, hlk, ht, hg.symm⟩
+        · cases hg
+        · cases hg
+    · intro name ce jd hj hg callee out hlk
+      simp only [callFn] at hg
+      cases hf : table.find? (fun f => f.name == name) with
+      | none => simp [hf] at hg
+      | some f =>
+        obtain ⟨t, sc, rb, hlk', hs, hsc, hgb, hrb, hfb⟩ := htab name f hf
+        have ht : t = callee := by
+          have : Registry.lookup ({ reg := reg, entry := e, call := refCall F reg (d + 1) } : RefCtx).reg name = some t := hlk'
+          rw [hlk] at this
+          exact (Option.some.inj this).symm
+        subst ht
+        simp only [hf, defaultData_obj, hfb] at hg
+        have hrel : EnvRel ce.entry sc { vars := ce.entry, loops := [], ij := ce.ij, globals := ce.globals }
+            ⟨jd, none, [(sOutputVar, .str [])]⟩ :=
+          C04c.envRel_params sc { vars := ce.entry, loops := [], ij := ce.ij, globals := ce.globals } _ hsc hj
+        split at hg
+        · split at hg <;> cases hg
+        · rename_i hx
+          intro hc
+          exact gen_no_throw_cmds_partial F (callFn F table fuel d) ⟨reg, ce.entry, refCall F reg d⟩ (tmplAe t) sOutputVar
+            (ih ce.entry).1 (ih ce.entry).2 (blockCmds t.body) sc rb (toBody_cmds hrb) _ _ [] hs hgb hrel (by simp [BufIs]) out hc fuel hx
+        · cases hg
+
+theorem mem_of_lookup {name : Bytes} {t : Registry.Tmpl} (h : Registry.lookup reg name = some t) : t ∈ reg :=
+  List.mem_of_find?_eq_some h
+
+/-- on directive-free templates the reference's call renders only what Spec/Eval.renderTmpl renders -/
+theorem refCall_le (hesc : EscapeHtmlIs F) (hplain : ∀ t ∈ reg, plainBlock t.body = true) (hasBundle : Bool) :
+    ∀ (d : Nat) (name : Bytes) (t : Registry.Tmpl) (ce : Spec.Eval.CallEnv) (out : Bytes), Registry.lookup reg name = some t →
+      refCall F reg d t ce = .val out → Spec.Eval.renderTmpl reg hasBundle none d t ce = .val out
+  | 0, _, _, _, _, _, h => by simp [refCall] at h
+  | d + 1, name, t, ce, out, hl, h => by
+    simp only [refCall] at h
+    rw [Spec.Eval.renderTmpl]
+    have hb : refBlock F ⟨reg, ce.entry, refCall F reg d⟩ (tmplAe t) t.body
+        { vars := ce.entry, loops := [], ij := ce.ij, globals := ce.globals } = .val out := by
+      cases hbody : t.body with
+      | mk p cmds => rw [hbody] at h; simpa [refBlock, blockCmds] using h
+    exact ref_le_spec_block F (tmplAe t) hesc reg hasBundle ce.entry (refCall F reg d) (Spec.Eval.renderTmpl reg hasBundle none d)
+      (fun name t ce out hl h => refCall_le hesc hplain hasBundle d name t ce out hl h) t.body _ out
+      (hplain t (mem_of_lookup reg hl)) hb
+
+/-- PARTIAL (C04, a whole registry).  `table`: the generated functions (`TableOk`); every template without print
+    directives (`hplain`), soy.$$escapeHtml read as `htmlEscape ∘ ToString` (`hesc`, a library obligation).  When
+    the generated function `name`, called on the JSON image of `data` — its calls served by the table, to depth `d`
+    — returns `r`, then Spec/Eval.render renders the template `name` on `data` (same depth), and `r` is this text. -/
+theorem gen_correct_registry_partial (hesc : EscapeHtmlIs F) (hplain : ∀ t ∈ reg, plainBlock t.body = true)
+    (htab : TableOk reg table) (globals : Spec.Eval.Binds) (ij : Option Spec.Eval.Binds) (msgs : Bool) (name : Bytes)
+    (data : Spec.Eval.Binds) (jd : List (Bytes × JVal)) (hj : C04c.toJsKvs data = some jd) (d : Nat) (r : JVal)
+    (hx : callFn F table fuel d name (.obj jd) = .val r) :
+    ∃ text, Spec.Eval.render reg globals ij msgs name data d = .val text ∧ r = .str text := by
+  obtain ⟨callee, out, hlk, hc, rfl⟩ :=
+    (calls_table_correct F reg table fuel htab d data).1 name ⟨data, ij, globals⟩ jd r hj hx
+  refine ⟨out, ?_, rfl⟩
+  have hlk' : Registry.lookup reg name = some callee := hlk
+  simp only [Spec.Eval.render, hlk']
+  exact refCall_le F reg hesc hplain msgs d name callee _ out hlk' hc
+
+/-- the same for a list of commands met inside a template: `gen_correct_cmds_spec` with the table for the oracle and
+    Spec/Eval.renderTmpl for the call -/
+theorem gen_correct_registry_cmds_partial (hesc : EscapeHtmlIs F) (hplain : ∀ t ∈ reg, plainBlock t.body = true)
+    (htab : TableOk reg table) (hasBundle : Bool) (d : Nat) (ae : Autoescape) (buf : Bytes) (entry : Spec.Eval.Binds)
+    (cmds : CmdList) (hpl : plainCmds cmds = true) (sc : Scope) (r : JsStmts × Scope) (h : toCmds ae buf cmds sc = some r)
+    (env : SEnv) (jenv jenv' : JEnv) (out : Bytes) (hs : ScOk sc) (hg : GoodBuf sc buf) (hrel : EnvRel entry sc env jenv)
+    (hb : BufIs buf jenv out) (fuel' : Nat) (hx : execStmts F (callFn F table fuel d) fuel' r.1 jenv = .ok jenv') :
+    ∃ text, Spec.Eval.renderCmds reg hasBundle (ae != .off) entry (Spec.Eval.renderTmpl reg hasBundle none d) none cmds env = .val text ∧
+      BufIs buf jenv' (out ++ text) := by
+  obtain ⟨text, ht, hb', _⟩ := cmds_ok F (callFn F table fuel d) ⟨reg, entry, refCall F reg d⟩ ae
+    (calls_table_correct F reg table fuel htab d entry).1 cmds buf fuel' sc r env jenv jenv' out h hs hg hrel hb hx
+  exact ⟨text, ref_le_spec_cmds F ae hesc reg hasBundle entry (refCall F reg d) (Spec.Eval.renderTmpl reg hasBundle none d)
+    (fun name t ce out hl h => refCall_le F reg hesc hplain hasBundle d name t ce out hl h) cmds env text hpl ht, hb'⟩
+
+/-- PARTIAL (C04, a whole registry, the converse — at the level of the reference semantics): where the reference
+    renders the template `name` on `data` (calls to depth `d`), the generated function returns this text or leaves
+    the common subset (`unspec`); it does not throw -/
+theorem gen_complete_registry_partial (htab : TableOk reg table) (name : Bytes) (t : Registry.Tmpl)
+    (hlk : Registry.lookup reg name = some t) (ce : Spec.Eval.CallEnv) (jd : List (Bytes × JVal))
+    (hj : C04c.toJsKvs ce.entry = some jd) (d : Nat) (text : Bytes) (ht : refCall F reg d t ce = .val text) :
+    callFn F table fuel d name (.obj jd) = .val (.str text) ∨ callFn F table fuel d name (.obj jd) = .unspec := by
+  obtain ⟨h1, h2⟩ := calls_table_correct F reg table fuel htab d ce.entry
+  cases hx : callFn F table fuel d name (.obj jd) with
+  | val r =>
+    obtain ⟨callee, out, hlk', hc, rfl⟩ := h1 name ce jd r hj hx
+    have : callee = t := by
+      have e1 : Registry.lookup reg name = some callee := hlk'
+      rw [hlk] at e1; exact (Option.some.inj e1).symm
+    subst this
+    have e2 : refCall F reg d callee ce = .val out := hc
+    rw [ht] at e2
+    simp only [Out.val.injEq] at e2
+    subst e2
+    exact Or.inl rfl
+  | error => exact absurd ht (h2 name ce jd hj hx t text hlk)
+  | unspec => exact Or.inr rfl
+
+/-- the converse against Spec/Eval.render itself.  PARTIAL, one lemma missing, kept as the NAMED hypothesis `hthrow`:
+    "where the generated function throws, Spec/Eval does not render" (`CallRelE` against Spec/Eval.renderTmpl; proved
+    above against the reference `refCall` only — the step from the reference to Spec/Eval needs that the reference stops
+    with an ERROR, not with `unspec`, wherever the JavaScript throws, which the `…_ne` lemmas of Props/C04e do not say).
+    The value case needs no hypothesis: a returned text is Spec/Eval's. -/
+theorem gen_complete_registry_spec_partial (hesc : EscapeHtmlIs F) (hplain : ∀ t ∈ reg, plainBlock t.body = true)
+    (htab : TableOk reg table) (globals : Spec.Eval.Binds) (ij : Option Spec.Eval.Binds) (msgs : Bool) (name : Bytes)
+    (data : Spec.Eval.Binds) (jd : List (Bytes × JVal)) (hj : C04c.toJsKvs data = some jd) (d : Nat)
+    (hthrow : CallRelE (callFn F table fuel d) ⟨reg, data, Spec.Eval.renderTmpl reg msgs none d⟩)
+    (text : Bytes) (ht : Spec.Eval.render reg globals ij msgs name data d = .val text) :
+    callFn F table fuel d name (.obj jd) = .val (.str text) ∨ callFn F table fuel d name (.obj jd) = .unspec := by
+  cases hx : callFn F table fuel d name (.obj jd) with
+  | val r =>
+    obtain ⟨text', ht', rfl⟩ := gen_correct_registry_partial F reg table fuel hesc hplain htab globals ij msgs name data jd hj d r hx
+    rw [ht] at ht'
+    simp only [Out.val.injEq] at ht'
+    subst ht'
+    exact Or.inl rfl
+  | error =>
+    exfalso
+    simp only [Spec.Eval.render] at ht
+    cases hlk : Registry.lookup reg name with
+    | none => simp [hlk] at ht
+    | some t =>
+      simp only [hlk] at ht
+      exact hthrow name ⟨data, ij, globals⟩ jd hj hx t text hlk ht
+  | unspec => exact Or.inr rfl
+
+end
+
+/-! ### `TableOk` for the functions of a file -/
+
+/-- the registry entries of the template nodes of a file (name, body and autoescape modes; the rest plays no part) -/
+def regOfTop (nsAe : Autoescape) : List Cmd → Registry.Reg
+  | .soyDoc _ _ :: .template _ name body ae _ :: rest =>
+    { (default : Registry.Tmpl) with name := name, body := body, autoescape := ae, nsAutoescape := nsAe } :: regOfTop nsAe rest
+  | _ => []
+
+theorem fileScope_facts {sc : Scope} (h : sc.stack = [[]]) :
+    ScOk sc.push ∧ (∀ k, sc.push.lookup k = none) ∧ GoodBuf sc.push sOutputVar := by
+  have hb : Bounded sc := by
+    intro f hf kv hkv
+    rw [h] at hf
+    simp only [List.mem_singleton] at hf
+    subst hf
+    cases hkv
+  refine ⟨scOk_push hb, ?_, old_plain _ (by decide), ?_⟩
+  · intro k
+    simp [Scope.lookup, Scope.push, h, Scope.lookupIn, frameGet?]
+  · intro f hf kv hkv
+    simp only [Scope.push, h, List.mem_cons, List.mem_singleton, List.not_mem_nil, or_false] at hf
+    rcases hf with rfl | rfl <;> cases hkv
+
+/-- the functions `toTop` makes of the template nodes of a file are a table for the registry of these nodes -/
+theorem tableOk_of_toTop (nsAe : Autoescape) : ∀ (cmds : List Cmd) (sc : Scope) (r : List JsFunc × Scope),
+    toTop nsAe cmds sc = some r → sc.stack = [[]] → TableOk (regOfTop nsAe cmds) r.1
+  | [], sc, r, h, _ => by
+    simp only [toTop, Option.some.injEq] at h; subst h
+    intro name f hf
+    simp at hf
+  | .soyDoc p params :: c :: rest, sc, r, h, hst => by
+    unfold toTop at h
+    split at h
+    · rename_i r1 h1
+      split at h
+      · rename_i r2 h2
+        simp only [Option.some.injEq] at h; subst h
+        obtain ⟨p', name, body, ae', y, rb, rfl, hrb, rfl⟩ := toTemplate_some h1
+        obtain ⟨hs, hlook, hgb⟩ := fileScope_facts hst
+        obtain ⟨_, b2, _⟩ := toBody_scope (aeOf ae' nsAe) body sOutputVar sc.push rb hrb hs
+        have hst' : rb.2.pop.stack = [[]] := by
+          simp only [Scope.pop]; rw [b2]; simp [Scope.push, hst]
+        have ih := tableOk_of_toTop nsAe rest rb.2.pop r2 h2 hst'
+        intro name0 f hf
+        simp only [List.find?_cons] at hf
+        by_cases hn : (name == name0) = true
+        · simp only [hn] at hf
+          simp only [Option.some.injEq] at hf; subst hf
+          refine ⟨{ (default : Registry.Tmpl) with name := name, body := body, autoescape := ae', nsAutoescape := nsAe },
+            sc.push, rb, ?_, hs, hlook, hgb, hrb, rfl⟩
+          simp [regOfTop, Registry.lookup, List.find?_cons, hn]
+        · have hn' : (name == name0) = false := by simpa using hn
+          simp only [hn'] at hf
+          obtain ⟨t, sc1, rb1, hlk, rest'⟩ := ih name0 f hf
+          refine ⟨t, sc1, rb1, ?_, rest'⟩
+          simpa [regOfTop, Registry.lookup, List.find?_cons, hn'] using hlk
+      · cases h
+    · cases h
+  | [.soyDoc ..], _, _, h, _ => by simp [toTop] at h
+  | .rawText .. :: _, _, _, h, _ => by simp [toTop] at h
+  | .print .. :: _, _, _, h, _ => by simp [toTop] at h
+  | .msg .. :: _, _, _, h, _ => by simp [toTop] at h
+  | .css .. :: _, _, _, h, _ => by simp [toTop] at h
+  | .debugger .. :: _, _, _, h, _ => by simp [toTop] at h
+  | .log .. :: _, _, _, h, _ => by simp [toTop] at h
+  | .ifc .. :: _, _, _, h, _ => by simp [toTop] at h
+  | .switch .. :: _, _, _, h, _ => by simp [toTop] at h
+  | .forc .. :: _, _, _, h, _ => by simp [toTop] at h
+  | .call .. :: _, _, _, h, _ => by simp [toTop] at h
+  | .letValue .. :: _, _, _, h, _ => by simp [toTop] at h
+  | .letContent .. :: _, _, _, h, _ => by simp [toTop] at h
+  | .headerParam .. :: _, _, _, h, _ => by simp [toTop] at h
+  | .namespace .. :: _, _, _, h, _ => by simp [toTop] at h
+  | .template .. :: _, _, _, h, _ => by simp [toTop] at h
+
+/-- the registry of a file -/
+def regOfFile (f : SoyFile) : Registry.Reg :=
+  match f.body with
+  | .namespace _ _ ae :: rest => regOfTop ae rest
+  | _ => []
+
+/-- the functions the generator writes for a file of the fragment (`visitSoyFile_renders`) are a table for its templates -/
+theorem tableOk_of_file (f : SoyFile) (r : List JsFunc × Scope) (h : toFile f = some r) : TableOk (regOfFile f) r.1 := by
+  unfold toFile at h
+  unfold regOfFile
+  split at h
+  · rename_i p name ae' rest hbody
+    exact tableOk_of_toTop ae' rest _ r h rfl
+  · cases h
+
+/-- PARTIAL (C04, a file): the functions the generator writes for a file of the fragment — `toFile`, by
+    `visitSoyFile_renders` the end of the generated text — calling one another: what the function `name` returns on the
+    JSON image of `data` is what Spec/Eval.render renders for the template `name` of the file on `data`.  Hypotheses:
+    no print directives in the file (`hplain`), soy.$$escapeHtml is `htmlEscape ∘ ToString` (`hesc`). -/
+theorem gen_correct_file_partial (F : Bytes → List Expr → JVal → JOut) (fuel : Nat) (hesc : EscapeHtmlIs F) (f : SoyFile)
+    (rr : List JsFunc × Scope) (hfile : toFile f = some rr) (hplain : ∀ t ∈ regOfFile f, plainBlock t.body = true)
+    (globals : Spec.Eval.Binds) (ij : Option Spec.Eval.Binds) (msgs : Bool) (name : Bytes)
+    (data : Spec.Eval.Binds) (jd : List (Bytes × JVal)) (hj : C04c.toJsKvs data = some jd) (d : Nat) (r : JVal)
+    (hx : callFn F rr.1 fuel d name (.obj jd) = .val r) :
+    ∃ text, Spec.Eval.render (regOfFile f) globals ij msgs name data d = .val text ∧ r = .str text :=
+  gen_correct_registry_partial F (regOfFile f) rr.1 fuel hesc hplain (tableOk_of_file f rr hfile) globals ij msgs name data jd hj d r hx
+
 /-! ## non-vacuity -/
 
 /-- `{namespace sem}` `/** @param a */ {template .t}` (Props/C04d `sampleCall`: a call of `.c` with `data="all"`, a value and a
@@ -265,5 +558,38 @@ set_option maxRecDepth 16000 in
 example : (toFile sampleFile).map (fun r => match callFn sampleF r.1 10 1 b!"sem.t" (.obj [(b!"a", .num 5)]) with
     | .unspec => true
     | _ => false) = some true := by decide +kernel
+
+/-- the same file with a callee without print directives: `{$p}:{$c}:{$a}` -/
+def plainFile : SoyFile :=
+  { sampleFile with body := [
+      .namespace 0 b!"sem" .unspecified,
+      .soyDoc 0 [⟨0, b!"a", false⟩],
+      .template 0 b!"sem.t" (.mk 0 sampleCall) .unspecified false,
+      .soyDoc 0 [⟨0, b!"p", true⟩, ⟨0, b!"c", true⟩, ⟨0, b!"a", true⟩],
+      .template 0 b!"sem.c" (.mk 0 (.cons (.print 0 (.dataRef 0 b!"p" .nil) []) (.cons (.rawText 0 b!":")
+        (.cons (.print 0 (.dataRef 0 b!"c" .nil) []) (.cons (.rawText 0 b!":")
+        (.cons (.print 0 (.dataRef 0 b!"a" .nil) []) .nil)))))) .unspecified false] }
+
+theorem plainFile_plain : ∀ t ∈ regOfFile plainFile, plainBlock t.body = true := by
+  have h : (regOfFile plainFile).all (fun t => plainBlock t.body) = true := by decide +kernel
+  exact fun t ht => List.all_eq_true.mp h t ht
+
+-- the generated functions and Spec/Eval.render on the file: the content param is escaped once more by the callee
+set_option maxRecDepth 16000 in
+example : (toFile plainFile).map (fun r => match callFn sampleF r.1 10 3 b!"sem.t" (.obj [(b!"a", .num 5)]) with
+    | .val (.str t) => some t
+    | _ => none) = some (some b!"[6:&lt;5&gt;:5]") := by decide +kernel
+
+set_option maxRecDepth 16000 in
+example : (match Spec.Eval.render (regOfFile plainFile) [] none false b!"sem.t" [(b!"a", .int 5)] 3 with
+    | .val t => some t
+    | _ => none) = some b!"[6:&lt;5&gt;:5]" := by decide +kernel
+
+/-- `gen_correct_file_partial` on it, for every `a` -/
+example (a : Int) (ha : SoyVerif.Spec.JsSem.exact a = true) (rr : List JsFunc × Scope) (hfile : toFile plainFile = some rr)
+    (r : JVal) (hx : callFn sampleF rr.1 10 3 b!"sem.t" (.obj [(b!"a", .num a)]) = .val r) :
+    ∃ text, Spec.Eval.render (regOfFile plainFile) [] none false b!"sem.t" [(b!"a", .int a)] 3 = .val text ∧ r = .str text :=
+  gen_correct_file_partial sampleF 10 sampleF_escape plainFile rr hfile plainFile_plain [] none false b!"sem.t" _ _
+    (by simp [C04c.toJsKvs, C04c.toJsV, ha]) 3 r hx
 
 end SoyVerif.Props.C04f
